@@ -334,6 +334,45 @@ def search(ctx):
             ctx.violation("C19:rotated-raises:%s" % kindc,
                           "Scatterers.rotated raises %s when a member is a %s" % (type(ex).__name__, kindc),
                           dict(kind="composite", op="rotated", centers=cs.tolist(), angles=ang, members=kindc))
+    # composites of composites: a collection whose members are themselves sphere collections (with or without single spheres next
+    # to them) turns as ONE rigid body about the centroid of its members' centres
+    for i in range(ctx.n(9, 60)):
+        ang = rand_angles(rng)
+        groups = [rng.normal(size=(int(rng.integers(2, 4)), 3)) * 1.5 + rng.normal(size=3) * 4 for _ in range(int(rng.integers(2, 4)))]
+        members = [Spheres([Sphere(n=1.5, r=0.1, center=tuple(c)) for c in g], warn=False) for g in groups]
+        single = rng.normal(size=3) * 4
+        with_single = bool(i % 2)
+        if with_single:
+            members.append(Sphere(n=1.5, r=0.1, center=tuple(single)))
+        ctx.tried("nested-composite", (len(groups), with_single, tuple(np.round(ang, 4))))
+        info = dict(kind="nested-composite", groups=[g.tolist() for g in groups], single=single.tolist() if with_single else None, angles=list(ang))
+        try:
+            tree = Scatterers(members)
+
+            def leaves(o):
+                return [np.asarray(o.center, dtype=float)] if not hasattr(o, "scatterers") else [c for m_ in o.scatterers for c in leaves(m_)]
+            before = np.array(leaves(tree))
+            ro = tree.rotated(*ang)
+            after = np.array(leaves(ro))
+            d0 = np.linalg.norm(before[:, None] - before[None], axis=-1)
+            d1 = np.linalg.norm(after[:, None] - after[None], axis=-1)
+            if after.shape != before.shape or not (np.abs(d0 - d1).max() <= 1e-9 * (1 + d0.max())):
+                ctx.violation("C19:rotated:nested", "a collection of %d sphere collections%s rotated by %s: distances between leaves of different members change by up to %.4g" % (
+                    len(groups), " and a sphere" if with_single else "", np.round(ang, 3).tolist(), float(np.abs(d0 - d1).max()) if after.shape == before.shape else float("nan")), info)
+                continue
+            # about the centroid of the members' centres, with the documented matrix
+            mc = np.array([np.asarray(m_.center, dtype=float) for m_ in tree.scatterers])
+            piv = mc.mean(0)
+            R = np.asarray(hm.rotation_matrix(*ang))
+            want = piv + (before - piv) @ R.T
+            if not (np.abs(after - want).max() <= 1e-9 * (1 + np.abs(want).max())):
+                ctx.violation("C19:rotated:nested-pivot", "nested collection rotated: leaves are not at pivot + R (p - pivot) (max deviation %.4g)" % float(np.abs(after - want).max()), info)
+            tr = tree.translated(1.5, -2.0, 0.5)
+            aft = np.array(leaves(tr))
+            if not (np.abs(aft - (before + np.array([1.5, -2.0, 0.5]))).max() <= 1e-12 * (1 + np.abs(before).max())):
+                ctx.violation("C19:translated:nested", "nested collection translated: leaves not shifted by the vector", info)
+        except Exception as ex:
+            ctx.violation("C19:nested-raises:%s" % type(ex).__name__, "nested collection rotated/translated raised %r" % (ex,), info)
     # composites built by set operations (union / difference / intersection of two spheres): rotated and translated rigidly too
     from holopy.scattering.scatterer import Union, Difference, Intersection
     for i in range(ctx.n(9, 60)):
